@@ -46,6 +46,25 @@ Proof.
   destruct Hs as (_&_&[Hx|Hx]); [congruence | exact Hx].
 Qed.
 
+(** a zero (nil) untrusted header always fails hard (ErrZeroHeader) *)
+Lemma verify_nil_hard now drift tv t u :
+  h_nil u = true -> exists e, Verify now drift tv t u = Some e /\ ve_soft e = false.
+Proof.
+  intros Hn. unfold Verify, verify_mand.
+  destruct (h_nil t); [eexists; split; reflexivity|].
+  rewrite Hn. eexists; split; reflexivity.
+Qed.
+
+(** the height check of verifyBifurcating let the answer [c] to a request for [ch] through *)
+Lemma height_check_passed now drift tv t (c : hdr) (ch : N) :
+  negb (h_nil c) && negb (h_height c =? ch) = false ->
+  h_height c = ch \/ exists e, Verify now drift tv t c = Some e /\ ve_soft e = false.
+Proof.
+  intros H. destruct (h_nil c) eqn:Hn.
+  - right. apply verify_nil_hard. exact Hn.
+  - left. cbn in H. destruct (N.eqb_spec (h_height c) ch); [assumption | discriminate].
+Qed.
+
 Lemma last_in {A} (l : list A) (d : A) : l <> [] -> In (last l d) l.
 Proof.
   induction l as [|a l IH]; [congruence|]. intros _. destruct l as [|b l]; [left; reflexivity|].
@@ -61,8 +80,9 @@ Notation bif := (bifurcate now drift tv get).
 (** the getter handed [c] out at some request *)
 Definition supplied (c : hdr) : Prop := exists i h, get i h = Some c.
 
+(** the run ended at a request that brought no usable answer: an error, or a header of another height *)
 Definition is_getter_fail (v : verdict) : bool :=
-  match v with Refuse FGetter => true | _ => false end.
+  match v with Refuse FGetter | Refuse FHeight => true | _ => false end.
 
 (** ** soundness, only-verified-promoted, and the run-relative iff *)
 Lemma bif_spec new fuel : forall i subj diff,
@@ -77,6 +97,8 @@ Proof.
   - set (ch := wrap64 (h_height subj + diff / 2)).
     destruct (get i ch) as [c|] eqn:Hg.
     2:{ cbn. repeat split; auto; congruence. }
+    destruct (negb (h_nil c) && negb (h_height c =? ch)).
+    { cbn. repeat split; auto; congruence. }
     destruct (V subj c) as [e|] eqn:Hv.
     + destruct (ve_soft e).
       * specialize (IH (S i) subj (diff / 2)). cbn in IH |- *. exact IH.
@@ -121,6 +143,8 @@ Proof.
       - cbn in Hn. injection Hn as <- <-. rewrite Nat.add_0_r in Hk. congruence.
       - cbn in Hn. replace (i + S k)%nat with (S i + k)%nat in Hk by lia.
         destruct (Hr k Hn Hk) as [Hv Hl]. split; [exact Hv | rewrite Hl; reflexivity]. }
+    destruct (negb (h_nil c) && negb (h_height c =? ch)).
+    { intros Hn Hk. apply Hone; auto. congruence. }
     destruct (V subj c) as [e|] eqn:Hv.
     + destruct (ve_soft e).
       * intros Hn Hk. apply Hrec; auto. intros k'. apply IH.
@@ -132,6 +156,52 @@ Proof.
       * intros Hn Hk. apply Hone; auto. congruence.
 Qed.
 
+(** wrong-height answers: a request answered with a non-zero header of another height than asked
+    is the last one and the candidate is refused for that reason *)
+Lemma bif_wrong_height new fuel : forall i subj diff k h sid x,
+  let r := bif fuel i subj new diff in
+  nth_error (b_calls r) k = Some (h, sid) -> get (i + k)%nat h = Some x ->
+  h_nil x = false -> h_height x <> h ->
+  b_verdict r = Refuse FHeight /\ length (b_calls r) = S k.
+Proof.
+  induction fuel as [|f IH]; intros i subj diff k h sid x; cbn [bifurcate].
+  - cbn. destruct k; discriminate.
+  - set (ch := wrap64 (h_height subj + diff / 2)).
+    intros Hn Hk Hnil Hne. revert Hn.
+    assert (Hbad : negb (h_nil x) && negb (h_height x =? h) = true).
+    { rewrite Hnil. cbn. destruct (N.eqb_spec (h_height x) h); [contradiction | reflexivity]. }
+    destruct (get i ch) as [c|] eqn:Hg.
+    2:{ cbn. destruct k as [|k]; [|destruct k; discriminate]. cbn. intros [= <- <-].
+        rewrite Nat.add_0_r in Hk. congruence. }
+    assert (Hone : forall v p, negb (h_nil c) && negb (h_height c =? ch) = false ->
+              nth_error (b_calls (BRun v [(ch, h_id subj)] p)) k = Some (h, sid) -> False).
+    { intros v p Hok Hn. cbn in Hn. destruct k as [|k]; [|destruct k; discriminate].
+      cbn in Hn. injection Hn as <- <-. rewrite Nat.add_0_r in Hk. rewrite Hg in Hk.
+      injection Hk as <-. congruence. }
+    assert (Hrec : forall p r', negb (h_nil c) && negb (h_height c =? ch) = false ->
+              nth_error (b_calls (bcons (ch, h_id subj) p r')) k = Some (h, sid) ->
+              (forall k', nth_error (b_calls r') k' = Some (h, sid) -> get (S i + k')%nat h = Some x ->
+                          b_verdict r' = Refuse FHeight /\ length (b_calls r') = S k') ->
+              b_verdict (bcons (ch, h_id subj) p r') = Refuse FHeight /\
+              length (b_calls (bcons (ch, h_id subj) p r')) = S k).
+    { intros p r' Hok Hn Hr. cbn in Hn |- *. destruct k as [|k].
+      - exfalso. cbn in Hn. injection Hn as <- <-. rewrite Nat.add_0_r in Hk. rewrite Hg in Hk.
+        injection Hk as <-. congruence.
+      - cbn in Hn. replace (i + S k)%nat with (S i + k)%nat in Hk by lia.
+        destruct (Hr k Hn Hk) as [Hv Hl]. split; [exact Hv | rewrite Hl; reflexivity]. }
+    destruct (negb (h_nil c) && negb (h_height c =? ch)) eqn:Hchk.
+    { cbn. destruct k as [|k]; [auto | destruct k; discriminate]. }
+    destruct (V subj c) as [e|] eqn:Hv.
+    + destruct (ve_soft e).
+      * intros Hn. apply Hrec; auto. intros k' Hn' Hk'. eapply IH; eauto.
+      * intros Hn. exfalso. eapply Hone; eauto.
+    + destruct (V c new) as [e|] eqn:Hnw.
+      * destruct (sub64 (h_height new) (h_height c) <=? 1).
+        -- intros Hn. exfalso. eapply Hone; eauto.
+        -- intros Hn. apply Hrec; auto. intros k' Hn' Hk'. eapply IH; eauto.
+      * intros Hn. exfalso. eapply Hone; eauto.
+Qed.
+
 (** a getter that fails from request [budget] on: [budget + 1] iterations always suffice *)
 Lemma bif_budget_fuel new budget :
   (forall j h, (budget <= j)%nat -> get j h = None) ->
@@ -141,43 +211,46 @@ Proof.
   - cbn [bifurcate]. rewrite (Hb i) by lia. cbn. congruence.
   - remember (S f) as f1. cbn [bifurcate].
     destruct (get i _) as [c|]; [|cbn; congruence].
+    destruct (negb (h_nil c) && _); [cbn; congruence|].
     destruct (V subj c) as [e|].
     + destruct (ve_soft e); [|cbn; congruence]. cbn. subst f1. apply IH. lia.
     + destruct (V c new); [|cbn; congruence].
       destruct (_ <=? 1); [cbn; congruence|]. cbn. subst f1. apply IH. lia.
 Qed.
 
-(** ** termination with an explicit bound, for every type-level verifier, when the getter
-    answers with the asked height on the heights between the two heads *)
+(** ** termination with an explicit bound, for every type-level verifier and EVERY getter
+    (whatever the heights of its answers): an answer of another height than asked ends the search *)
 Section termination.
-Variables (new : hdr) (s0 : N).
+Variables (new : hdr).
 Let n := h_height new.
 Hypothesis n_u64 : n < two64.
-Hypothesis heights_honest : forall i h x, s0 <= h <= n -> get i h = Some x -> h_height x = h.
 
 Ltac exit_case :=
   cbn; split; [congruence |
     match goal with |- context [?a * (N.size ?b + 1)] => generalize (a * (N.size b + 1)) end; intros; lia].
 
 Lemma bif_terminates D0 fuel : forall i subj diff,
-  s0 <= h_height subj -> h_height subj <= n -> diff <= n - h_height subj -> n - h_height subj <= D0 ->
+  h_height subj <= n -> diff <= n - h_height subj -> n - h_height subj <= D0 ->
   ((n - h_height subj) * (N.size D0 + 1) + N.size diff < N.of_nat fuel) ->
   let r := bif fuel i subj new diff in
   b_verdict r <> OutOfFuel /\
   N.of_nat (length (b_calls r)) <= (n - h_height subj) * (N.size D0 + 1) + N.size diff + 1.
 Proof.
-  induction fuel as [|f IH]; intros i subj diff Hs0 Hsn Hd HD Hf;
+  induction fuel as [|f IH]; intros i subj diff Hsn Hd HD Hf;
     [exfalso; eapply N.nlt_0_r; exact Hf|].
   cbn [bifurcate].
   assert (Hch : wrap64 (h_height subj + diff / 2) = h_height subj + diff / 2).
   { apply wrap64_small. assert (diff / 2 <= diff) by (apply N.div_le_upper_bound; lia). lia. }
   rewrite Hch. set (ch := h_height subj + diff / 2).
-  assert (Hrange : s0 <= ch <= n).
+  assert (Hrange : ch <= n).
   { unfold ch. assert (diff / 2 <= diff) by (apply N.div_le_upper_bound; lia). lia. }
   destruct (get i ch) as [c|] eqn:Hg; [|exit_case].
-  pose proof (heights_honest i ch c Hrange Hg) as Hc.
+  destruct (negb (h_nil c) && negb (h_height c =? ch)) eqn:Hchk; [exit_case|].
+  apply (height_check_passed now drift tv subj) in Hchk.
   destruct (V subj c) as [e|] eqn:Hv.
   - destruct (ve_soft e) eqn:Hsoft; [|exit_case].
+    assert (Hc : h_height c = ch).
+    { destruct Hchk as [Hc|(e' & He' & Hs')]; [exact Hc | congruence]. }
     pose proof (verify_soft_height _ _ _ _ _ _ Hv Hsoft) as Hlt.
     assert (Hd2 : diff / 2 <> 0) by (unfold ch in Hc; lia).
     assert (Hdz : diff <> 0) by (intros ->; apply Hd2; reflexivity).
@@ -185,7 +258,9 @@ Proof.
     assert (diff / 2 <= diff) by (apply N.div_le_upper_bound; lia).
     destruct (IH (S i) subj (diff / 2)) as [H1 H2]; try lia.
     cbn. split; [exact H1 | lia].
-  - pose proof (verify_none_height _ _ _ _ _ Hv) as Hlt.
+  - assert (Hc : h_height c = ch).
+    { destruct Hchk as [Hc|(e' & He' & Hs')]; [exact Hc | congruence]. }
+    pose proof (verify_none_height _ _ _ _ _ Hv) as Hlt.
     assert (Hd2 : 1 <= diff / 2) by (unfold ch in Hc; lia).
     destruct (V c new) as [e|]; [|exit_case].
     assert (Hcn : h_height c <= n) by (rewrite Hc; apply Hrange).
@@ -198,12 +273,12 @@ Proof.
 Qed.
 
 Theorem bif_terminates_bound : forall i subj fuel,
-  s0 <= h_height subj -> h_height subj <= n ->
+  h_height subj <= n ->
   (fuel_bound (n - h_height subj) <= fuel)%nat ->
   let r := bif fuel i subj new (n - h_height subj) in
   b_verdict r <> OutOfFuel /\ N.of_nat (length (b_calls r)) <= bound (n - h_height subj).
 Proof.
-  intros i subj fuel Hs0 Hsn Hf.
+  intros i subj fuel Hsn Hf.
   set (D := n - h_height subj) in *.
   assert (HB : D * (N.size D + 1) + N.size D + 1 = bound D) by (unfold bound; lia).
   destruct (bif_terminates D fuel i subj D) as [H1 H2]; try (unfold D; lia).
@@ -306,6 +381,16 @@ Proof.
   apply (bif_getter_failure new fuel 0%nat).
 Qed.
 
+Theorem sverify_wrong_height new fuel subj k h sid x :
+  let r := sverify fuel subj new in
+  nth_error (b_calls r) k = Some (h, sid) -> get k h = Some x -> h_nil x = false -> h_height x <> h ->
+  b_verdict r = Refuse FHeight /\ length (b_calls r) = S k.
+Proof.
+  unfold syncer_verify. destruct (V subj new) as [e|]; [|cbn; destruct k; discriminate].
+  destruct (ve_soft e); [|cbn; destruct k; discriminate].
+  apply (bif_wrong_height new fuel 0%nat).
+Qed.
+
 (** bifurcation is entered for soft failures only *)
 Theorem sverify_direct new fuel subj :
   let r := sverify fuel subj new in
@@ -320,52 +405,51 @@ Qed.
 
 Theorem sverify_terminates new fuel subj :
   h_height new < two64 ->
-  (forall i h x, h_height subj <= h <= h_height new -> get i h = Some x -> h_height x = h) ->
   (fuel_bound (h_height new - h_height subj) <= fuel)%nat ->
   let r := sverify fuel subj new in
   b_verdict r <> OutOfFuel /\
   N.of_nat (length (b_calls r)) <= bound (h_height new - h_height subj).
 Proof.
-  intros Hn Hh Hf. unfold syncer_verify.
+  intros Hn Hf. unfold syncer_verify.
   destruct (V subj new) as [e|] eqn:Hv; [|cbn; split; [congruence | lia]].
   destruct (ve_soft e) eqn:Hs; [|cbn; split; [congruence | lia]].
   pose proof (verify_soft_height _ _ _ _ _ _ Hv Hs) as Hlt.
   rewrite sub64_le by lia.
-  apply (bif_terminates_bound new (h_height subj) Hn Hh); lia.
+  apply (bif_terminates_bound new Hn); lia.
 Qed.
 
-(** with a getter that answers with the asked heights, every intermediate the search promotes
-    lies strictly below the candidate: a refused candidate never becomes the subjective head *)
+(** whatever the getter answers, every intermediate the search promotes lies strictly below
+    the candidate: a refused candidate never becomes the subjective head *)
 Lemma bif_promoted_below new fuel : forall i subj diff,
   h_height new < two64 ->
-  (forall i h x, h_height subj <= h <= h_height new -> get i h = Some x -> h_height x = h) ->
   h_height subj < h_height new -> diff <= h_height new - h_height subj ->
   Forall (fun c => h_height c < h_height new) (b_promoted (bif fuel i subj new diff)).
 Proof.
-  induction fuel as [|f IH]; intros i subj diff Hn Hh Hsn Hd; [constructor|].
+  induction fuel as [|f IH]; intros i subj diff Hn Hsn Hd; [constructor|].
   cbn [bifurcate].
   assert (Hle : diff / 2 <= diff) by (apply N.div_le_upper_bound; lia).
   assert (H2 : 2 * (diff / 2) <= diff) by (apply N.mul_div_le; lia).
   rewrite wrap64_small by lia. set (ch := h_height subj + diff / 2).
   destruct (get i ch) as [c|] eqn:Hg; [|constructor].
-  assert (Hc : h_height c = ch) by (apply (Hh i); [unfold ch; lia | exact Hg]).
-  assert (Hcn : h_height c < h_height new) by (unfold ch in Hc; lia).
+  destruct (negb (h_nil c) && negb (h_height c =? ch)) eqn:Hchk; [constructor|].
+  apply (height_check_passed now drift tv subj) in Hchk.
   destruct (V subj c) as [e|] eqn:Hv.
   - destruct (ve_soft e); [|constructor]. cbn. apply IH; auto. lia.
-  - pose proof (verify_none_height _ _ _ _ _ Hv) as Hlt.
+  - assert (Hc : h_height c = ch).
+    { destruct Hchk as [Hc|(e' & He' & Hs')]; [exact Hc | congruence]. }
+    assert (Hcn : h_height c < h_height new) by (unfold ch in Hc; lia).
+    pose proof (verify_none_height _ _ _ _ _ Hv) as Hlt.
     destruct (V c new); [|constructor; [exact Hcn | constructor]].
     destruct (_ <=? 1); [constructor; [exact Hcn | constructor]|].
     cbn. constructor; [exact Hcn|]. apply IH; auto.
-    + intros j h x Hr. apply Hh. lia.
-    + rewrite sub64_le by lia. lia.
+    rewrite sub64_le by lia. lia.
 Qed.
 
 Theorem sverify_promoted_below new fuel subj :
   h_height new < two64 ->
-  (forall i h x, h_height subj <= h <= h_height new -> get i h = Some x -> h_height x = h) ->
   Forall (fun c => h_height c < h_height new) (b_promoted (sverify fuel subj new)).
 Proof.
-  intros Hn Hh. unfold syncer_verify. destruct (V subj new) as [e|] eqn:Hv; [|constructor].
+  intros Hn. unfold syncer_verify. destruct (V subj new) as [e|] eqn:Hv; [|constructor].
   destruct (ve_soft e) eqn:Hs; [|constructor].
   pose proof (verify_soft_height _ _ _ _ _ _ Hv Hs) as Hlt.
   apply bif_promoted_below; auto. rewrite sub64_le by lia. lia.
@@ -381,10 +465,9 @@ Proof.
   unfold incoming. destruct (b_verdict (sverify fuel subj new)) eqn:Hv; cbn; rewrite ?Hv, ?app_nil_r; auto.
 Qed.
 
-(** the whole property in one statement, for a getter that answers with the asked heights *)
+(** the whole property in one statement, for every getter *)
 Theorem incoming_main new fuel subj :
   h_height new < two64 ->
-  (forall i h x, h_height subj <= h <= h_height new -> get i h = Some x -> h_height x = h) ->
   (fuel_bound (h_height new - h_height subj) <= fuel)%nat ->
   let r := incom fuel subj new in
   (* terminates, with a bounded number of getter requests *)
@@ -401,9 +484,9 @@ Theorem incoming_main new fuel subj :
   (b_verdict r <> Accept ->
    Forall supplied (b_promoted r) /\ V (head_after subj r) new <> None).
 Proof.
-  intros Hn Hh Hf r.
+  intros Hn Hf r.
   destruct (incoming_unfold new fuel subj) as (Hv & Hc & Hp). fold r in Hv, Hc, Hp.
-  destruct (sverify_terminates new fuel subj Hn Hh Hf) as [Hoof Hb].
+  destruct (sverify_terminates new fuel subj Hn Hf) as [Hoof Hb].
   destruct (sverify_spec new fuel subj) as (Hch & Hs & Hiff). specialize (Hiff Hoof).
   pose proof (incoming_only_verified new fuel subj) as [Hall _]. fold r in Hall.
   split; [|split; [|split; [|split]]].
@@ -447,17 +530,16 @@ Qed.
 
 Theorem head_soft_refused_never_head new fuel subj :
   h_height new < two64 ->
-  (forall i h x, h_height subj <= h <= h_height new -> get i h = Some x -> h_height x = h) ->
   subj <> new ->
   let '(r, ans) := head_soft now drift tv get fuel subj new in
   b_verdict r <> Accept ->
   ans <> new /\ ~ In new (b_promoted r) /\ head_after subj r <> new.
 Proof.
-  intros Hn Hh Hne. pose proof (head_soft_spec new fuel subj) as Hs.
+  intros Hn Hne. pose proof (head_soft_spec new fuel subj) as Hs.
   destruct (head_soft now drift tv get fuel subj new) as [r ans]. destruct Hs as (-> & _ & Hr).
   intros Hna. rewrite (Hr Hna).
   destruct (incoming_unfold new fuel subj) as (Hv & _ & Hp).
-  pose proof (sverify_promoted_below new fuel subj Hn Hh) as Hb.
+  pose proof (sverify_promoted_below new fuel subj Hn) as Hb.
   assert (Hp' : b_promoted (incom fuel subj new) = b_promoted (sverify fuel subj new)).
   { rewrite Hp. destruct (b_verdict (sverify fuel subj new)) eqn:E; [congruence | apply app_nil_r | apply app_nil_r]. }
   rewrite <- Hp' in Hb. rewrite Forall_forall in Hb.
@@ -525,6 +607,7 @@ Proof.
   set (b := a + diff / 2).
   assert (Hb : a < b < n) by (unfold b; lia).
   rewrite (get_honest i b) by lia.
+  rewrite (c_height b), N.eqb_refl, andb_false_r.
   destruct (V (c a) (c b)) as [e|] eqn:Hv.
   - rewrite (never_hard a b e) by (auto; lia).
     assert (Hd4 : 2 <= diff / 2).
@@ -534,7 +617,7 @@ Proof.
     cbn [bcons b_verdict b_promoted]. exact IH.
   - destruct (V (c b) new) as [e|] eqn:Hn.
     2:{ right; left. cbn. split; [reflexivity|]. exists b. auto. }
-    rewrite c_height. rewrite (sub64_le (h_height new) b) by (fold n; lia). fold n.
+    rewrite ?c_height. rewrite (sub64_le (h_height new) b) by (fold n; lia). fold n.
     destruct (N.leb_spec (n - b) 1) as [H|H].
     + right; right. exists e. cbn. replace (n - 1) with b by lia. auto.
     + specialize (IH (S i) b (n - b) ltac:(lia) ltac:(lia) ltac:(lia)). cbn zeta in IH.
@@ -543,15 +626,12 @@ Proof.
       right; left. split; [exact IH|]. exists b'. split; [lia | exact Hvb].
 Qed.
 
-Lemma honest_heights : forall i h x, s <= h <= n -> get i h = Some x -> h_height x = h.
-Proof. intros i h x Hr Hg. rewrite get_honest in Hg by exact Hr. injection Hg as <-. apply c_height. Qed.
-
 Lemma honest_no_oof fuel :
   (fuel_bound (n - s) <= fuel)%nat -> b_verdict (sverify fuel (c s) new) <> OutOfFuel.
 Proof.
   intros Hf.
   pose proof (sverify_terminates now drift tv get new fuel (c s) n_u64) as H.
-  rewrite c_height in H. apply H; auto. apply honest_heights.
+  rewrite c_height in H. apply H; auto.
 Qed.
 
 (** completeness: a candidate that the last chain header before it verifies (in particular
@@ -584,7 +664,7 @@ Proof.
   destruct (N.eq_dec (n - s) 1) as [E|E].
   - intros _. rewrite E. destruct fuel as [|f]; [unfold fuel_bound, bound in Hf; rewrite E in Hf; cbn in Hf; lia|].
     cbn [bifurcate]. rewrite c_height. change (1 / 2) with 0. rewrite N.add_0_r, wrap64_small by lia.
-    rewrite get_honest by lia.
+    rewrite get_honest by lia. rewrite (c_height s), N.eqb_refl, andb_false_r.
     destruct (verify_same_height_hard now drift tv (c s) (c s) eq_refl) as (e' & -> & ->).
     eexists; reflexivity.
   - destruct (honest_shape fuel 0%nat s (n - s)) as [H|[(_&b&Hb&H)|(e'&H&_)]]; try lia.
@@ -624,22 +704,13 @@ Definition ex_tv (tr : N) (t u : hdr) : tvres :=
   else if h_height u - h_height t <=? tr then TVOk else TVPlain 2.
 Definition ex_get (i : nat) (h : N) : option hdr := Some (ex_c h).
 
-(** a getter that answers every request with the same far-away header: the loop never ends *)
-Lemma spin_loop fuel : forall i diff,
-  b_verdict (bifurcate 1000 0 (ex_tv 3) (fun _ _ => Some (ex_c 500)) fuel i (ex_c 10) (ex_c 30) diff) = OutOfFuel.
-Proof.
-  assert (Hv : Verify 1000 0 (ex_tv 3) (ex_c 10) (ex_c 500) = Some (VErr (RType 2) true)) by (vm_compute; reflexivity).
-  induction fuel as [|f IH]; intros i diff; [reflexivity|].
-  cbn [bifurcate]. rewrite Hv. cbn [ve_soft bcons b_verdict]. apply IH.
-Qed.
-
-Lemma spin_example : forall fuel,
-  b_verdict (syncer_verify 1000 0 (ex_tv 3) (fun _ _ => Some (ex_c 500)) fuel (ex_c 10) (ex_c 30)) = OutOfFuel.
-Proof.
-  intros fuel. unfold syncer_verify.
-  assert (Hd : Verify 1000 0 (ex_tv 3) (ex_c 10) (ex_c 30) = Some (VErr (RType 2) true)) by (vm_compute; reflexivity).
-  rewrite Hd. cbn [ve_soft]. apply spin_loop.
-Qed.
+(** a getter that answers every request with the same far-away header: before fix F30 the loop of
+    the code never ended (it span at diff = 0, every answer rejected softly); now the first answer,
+    not of the asked height 20, ends the search with the refusal, for every positive amount of fuel *)
+Lemma refused_example : forall fuel,
+  syncer_verify 1000 0 (ex_tv 3) (fun _ _ => Some (ex_c 500)) (S fuel) (ex_c 10) (ex_c 30)
+  = BRun (Refuse FHeight) [(20, 10)] [].
+Proof. intros fuel. vm_compute. reflexivity. Qed.
 
 (** ** sequences of deliveries: each one is judged on its own *)
 Lemma deliveries_app now drift tv subj l1 l2 :
